@@ -64,6 +64,14 @@ what the implementation stores, reads every file back itself with h5py, and hand
 (Model/PairIndex.v: c04_big_case, the estimator model evaluated in one pass over the pair list; Props: C04_flat_index_injective,
 C04_flat_index_fits_below / _wraps_from, C04_flat16_fits_181 / _wraps_from_182 / _lands_on_other_pair / _invisible_at_256, C04_sparse_roundtrip /
 _wrapped_refuted, C04_sparse_sample_is_recount, C04_sparse_sums_are_dense, C04_big_normalisation_is_dense); n(z) and normalised() as in (a).
+(i) legacy files (props/c04_legacy.py): every family above reads only files the library wrote itself.  The harness writes pair counts in
+the layout of yaw < 3.0 (no `version` tag; groups count / total with keys, data, n_patches, totals1, totals2 of shape (patches, bins), binning
+as (left, right) rows) for auto- and cross-correlations with every subset of {dr, rd, rr}, different total weights of the two samples, all
+number profiles; CorrFunc.from_file must restore the numbers field by field with the roles of the two samples kept (Model/LegacyCounts.v:
+decode, c04_legacy_case), sample() / RedshiftData.from_corrfuncs must be the estimator of the numbers written (c04_legacy_nz_case), and the
+restored object must survive to_file / from_file in the current layout (Props: C04_legacy_decode_keeps_roles, C04_legacy_cross_denominator /
+_cross_term, C04_legacy_first_twice_agrees_equal_totals / _refuted, C04_legacy_swapped_same_cross_denominator / _refuted,
+C04_legacy_untransposed_square_refuted, C04_legacy_case_sound).
 (b) symbolic traces of landy_szalay, davis_peebles, NormalisedCounts.sample_patch_sum,
 RedshiftData.from_corrdata, HistData.normalised, RedshiftData.normalised are re-proved equal to
 the documented formulas by `ring` (numerator / denominator / radicand separately) on every run.
@@ -76,6 +84,7 @@ from lib import floatq as fq
 from props import _jk_common as jk
 from props import c04_alg
 from props import c04_big
+from props import c04_legacy
 from props import c04_meas
 
 ALLOWED_AXIOMS = ["sig_forall_dec", "sig_not_dec", "functional_extensionality_dep", "classic"]  # only under C04_nz_sqrt_form / _unique (reals)
@@ -96,7 +105,7 @@ TRUSTED = [
     "on them), its h5py reader of CorrFunc files, its brute-force pair count of the measured cross-correlations and the literal helpers of the "
     "shard header (pe / wr / fl: binary indices, numerators over a power of two, (sign, mantissa as primitive integer, exponent) of a float) are "
     "harness code; an index expression is resolved to positions with python integers, numpy is asked only whether it accepts the spelling",
-]
+] + c04_legacy.TRUSTED
 ASSUMPTIONS = [
     "where an exact denominator is zero (or the radicand is not positive) the documented formula is undefined: the "
     "implementation's non-finite output is accepted and nothing else is compared",
@@ -125,7 +134,7 @@ ASSUMPTIONS = [
     "call histories consist of the public methods listed in _jk_common.CF_OBS / SD_OBS with valid arguments and of "
     "set_patch_pair with in-range patch indices and one value per bin; arrays handed out by the containers are only "
     "read by the harness, never written; a call that raises is recorded and skipped",
-]
+] + c04_legacy.ASSUMPTIONS
 RULE = ("cases = (subset of dr/rd/rr, auto|cross, bins, patches, all array entries) for estimators; triple of CorrFuncs for "
         "n(z); (container kind, binning, data, samples) for normalisation; distinct by all entries; non-trivial when every "
         "denominator is non-zero so that the full formula is compared (for 'raises' cases: always); history cases are "
@@ -142,7 +151,7 @@ RULE = ("cases = (subset of dr/rd/rr, auto|cross, bins, patches, all array entri
         "alg-op/* counts the operations performed, alg-tree-with/* the trees containing each kind of node; many-patches cases (kind big/...) = "
         "(generator description: seed, patches, bins, roles, density; route of operations with all positions), non-trivial when the sampled result "
         "is finite; histogram big-patches/* = patches held by the sampled container, big-nonzero-pair-beyond-row-or-column/* = cases with a non-zero "
-        "pair beyond that row or column, big-op/* = operations performed")
+        "pair beyond that row or column, big-op/* = operations performed; " + c04_legacy.RULE)
 
 
 def est_defined(sub):
@@ -873,10 +882,11 @@ def run(ctx):
     b_normh = jk.Batch(ctx, "Cases_C04_norm_hist", shard=80)
     histories(ctx, b_hist, b_nzh, b_normh)
     ctx.log("hand-built containers and histories done")
+    b_leg, b_leg_nz, b_leg_norm = c04_legacy.run(ctx)
     b_big, b_big_nz, b_big_norm = c04_big.run(ctx)
     b_meas, b_meas_nz = c04_meas.run_measured(ctx)
     b_algm, b_algm_nz = c04_alg.run_measured(ctx)
-    batches = (b_big, b_big_nz, b_big_norm, b_corr, b_nz, b_norm, b_hist, b_nzh, b_normh, b_meas, b_meas_nz, b_algm, b_algm_nz)
+    batches = (b_leg, b_leg_nz, b_leg_norm, b_big, b_big_nz, b_big_norm, b_corr, b_nz, b_norm, b_hist, b_nzh, b_normh, b_meas, b_meas_nz, b_algm, b_algm_nz)
     ctx.log("implementation runs done; evaluating %d cases in Coq" % sum(len(b.items) for b in batches))
     for b in batches:
         b.run()
@@ -893,6 +903,9 @@ def replay(ctx, body):
         return
     if str(r.get("kind", "")).startswith("big"):
         c04_big.replay(ctx, r)
+        return
+    if str(r.get("kind", "")).startswith("legacy"):
+        c04_legacy.replay(ctx, r)
         return
     spec, kind = r["spec"], r["kind"]
     b, bn = jk.Batch(ctx, "Replay_C04"), jk.Batch(ctx, "Replay_C04_norm")
